@@ -692,6 +692,15 @@ func goBodyOf(g *ssa.Go) *ssa.Function {
 	return g.Call.StaticCallee()
 }
 
+func init() {
+	core.OnRelease(func() {
+		core.ClearMap(&goIndex)
+		core.ClearMap(&callIndex)
+		core.ClearMap(&fanJoined)
+		core.ClearMap(&globalFuncsMemo)
+	})
+}
+
 var goIndex sync.Map // *ssa.Program -> []*ssa.Go
 
 var callIndex sync.Map // *ssa.Program -> map[*ssa.Function][]*ssa.Call (plain static calls in scope)
